@@ -78,7 +78,7 @@ class C05(Check):
     require = {"collections": 100, "orphans_deleted": 30, "collections_with_open_tx": 5}
 
     def gen_cases(self, tier: str, seed: int):
-        reps = 3 if tier == "quick" else 30
+        reps = 3 if tier == "quick" else 200
         i = 0
         for r in range(reps):
             for sp in LOCAL_SPELLINGS:
